@@ -372,7 +372,8 @@ def _mrg_keyed(u, roles, R):
                      '%s links a node into the target object without giving it a name: the member loses its key' % cn,
                      key='keyed:%s' % expr_str(c)[:40])
                 continue
-            key = strip_casts(c['args'][_KEYED_LINKERS[cn]])
+            from .common import field_cache, expand_cached
+            key = strip_casts(expand_cached(c['args'][_KEYED_LINKERS[cn]], field_cache(u, fn, 'string')))     # const char *key = patch_child->string
             kroot = _root_var(strip_casts(key['b'])) if key.get('k') == 'mem' and key['f'] == 'string' else None
             ok = kroot is not None and var.get(kroot) == 'P'
             R.ob('MRG4', fn, c, 'a value enters the target under the patch member\'s name', ok,
